@@ -83,6 +83,11 @@ def run(ctx):
     rp = ctx.path("reuse.ndjson")
     vlib.run_bin("fault_driver", ["reuse", "--out", rp], timeout=120)
     ev += vlib.read_ndjson(rp)
+    # writers taking turns between two Index instances: every read of .managed.json fails once (a new writer re-reads
+    # the list: the error has to reach the caller; a writer created with a stale list leaves orphans at the end)
+    mrp = ctx.path("managedread.ndjson")
+    vlib.run_bin("fault_driver", ["managedread", "--out", mrp], timeout=600)
+    ev += vlib.read_ndjson(mrp)
     # the storage stalls under the indexing worker until the pipeline is full and add_document blocks, then fails:
     # the blocked call has to return (FaultProto: AddBlock / AddWake; a producer left waiting is a hang)
     stp = ctx.path("stall.ndjson")
